@@ -140,7 +140,17 @@ func fnPkgPath(fn *ssa.Function) string {
 	return ""
 }
 
+// interpFuncs are single functions of otherwise modelled packages that are executed from their real SSA.
+var interpFuncs = map[string]bool{
+	"encoding/json.parseTag":              true,
+	"encoding/json.isValidTag":            true,
+	"(encoding/json.tagOptions).Contains": true,
+}
+
 func (p *Program) mayInterpret(fn *ssa.Function) bool {
+	if interpFuncs[fn.String()] {
+		return true
+	}
 	path := fnPkgPath(fn)
 	if path == "" {
 		return true // synthetic wrappers, bound methods, thunks
@@ -216,4 +226,35 @@ func FieldIndex(t types.Type, name string) int {
 		}
 	}
 	return -1
+}
+
+// FuncIn returns a package-level function of any package in the program.
+func (p *Program) FuncIn(pkg, name string) *ssa.Function {
+	for _, q := range p.Prog.AllPackages() {
+		if q.Pkg.Path() == pkg {
+			if f := q.Func(name); f != nil {
+				return f
+			}
+		}
+	}
+	panic(abort{kind: abortUnsupported, msg: "anchor-missing: " + pkg + "." + name})
+}
+
+// MethodIn returns method name of named type typ (value receiver) in package pkg.
+func (p *Program) MethodIn(pkg, typ, name string, ptr bool) *ssa.Function {
+	var t types.Type = p.ImportedType(pkg, typ)
+	if ptr {
+		t = types.NewPointer(t)
+	}
+	var tp *types.Package
+	for _, q := range p.Prog.AllPackages() {
+		if q.Pkg.Path() == pkg {
+			tp = q.Pkg
+		}
+	}
+	f := p.Prog.LookupMethod(t, tp, name)
+	if f == nil {
+		panic(abort{kind: abortUnsupported, msg: "anchor-missing: " + pkg + "." + typ + "." + name})
+	}
+	return f
 }
